@@ -43,9 +43,8 @@ Section SeqModel.
   Definition seq_body (start : Z) :=
     (fun (path : A) (st : bool * list A) =>
        let '(flag, acc) := st in
-       if negb (T =? -1) then
-         bind (o_now O) (fun t => if T <? t - start then ret (CBreak, (true, acc)) else ret (CNext, (flag, acc ++ [path])))
-       else ret (CNext, (flag, acc ++ [path]))).
+       if T =? -1 then ret (CNext, (flag, acc ++ [path]))
+       else bind (o_now O) (fun t => if T <? t - start then ret (CBreak, (true, acc)) else ret (CNext, (flag, acc ++ [path])))).
 
   Lemma seq_loop_sim : forall rest fuel fuel' n acc,
     (length rest < fuel)%nat -> (length rest < fuel')%nat ->
@@ -54,17 +53,17 @@ Section SeqModel.
       w_iter fuel (o_next O tt) (seq_body (clk 0%nat)) (false, acc) (mksw n rest)
       = WOk (s_flag o, s_result o) (mksw (s_exit o) rest').
   Proof.
-    unfold seq_body. destruct (negb (T =? -1)) eqn:En.
+    unfold seq_body. destruct (T =? -1) eqn:En.
     all: induction rest as [|p r IH]; intros fuel fuel' n acc Hf Hf'; simpl in Hf, Hf';
       (destruct fuel as [|fuel]; [lia|]); (destruct fuel' as [|fuel']; [lia|]).
     all: try (exists []; reflexivity).
     all: cbn [w_iter seq_iter]; unfold seq_step; cbn [st_rest st_n st_acc]; unfold bind at 1; cbn [o_next soracle sw_rest sw_n];
-      unfold late; rewrite En; cbn [andb].
+      unfold late; rewrite En; cbn [negb andb].
+    - unfold bind at 1. cbn [ret fst snd]. apply IH; lia.
     - unfold bind at 1. unfold bind at 1. cbn [o_now soracle sw_n].
       destruct (T <? clk (S n) - clk 0%nat) eqn:El.
       + exists r. reflexivity.
       + cbn [ret fst snd]. apply IH; lia.
-    - unfold bind at 1. cbn [ret fst snd]. apply IH; lia.
   Qed.
 
   Theorem ref_sequential_is_model fuel (kernel : list I) (all : list A) :
@@ -433,18 +432,17 @@ Section SchedModel.
     w_iter fuel (o_next O tt)
       (fun pth (st : bool * list path) =>
          let '(flag, acc) := st in
-         if negb (T =? -1) then
-           bind (o_now O) (fun t => if T <? t - 0 then ret (CBreak, (true, acc)) else ret (CNext, (flag, acc ++ [pth])))
-         else ret (CNext, (flag, acc ++ [pth])))
+         if T =? -1 then ret (CNext, (flag, acc ++ [pth]))
+         else bind (o_now O) (fun t => if T <? t - 0 then ret (CBreak, (true, acc)) else ret (CNext, (flag, acc ++ [pth]))))
       (flag, acc) (mkcw ss rest) = WOk (flag, acc ++ rest) (mkcw ss []).
   Proof.
     intros HT. induction rest as [|p r IH]; intros fuel flag acc ss Hf; (destruct fuel as [|fuel]; [simpl in Hf; lia|]); cbn [w_iter].
     - erewrite bind_ok by reflexivity. rewrite app_nil_r. reflexivity.
     - erewrite bind_ok by reflexivity. cbn [cw_secs].
-      assert (E : (if negb (T =? -1) then
-                    bind (o_now O) (fun t => if T <? t - 0 then ret (CBreak, (true, acc)) else ret (CNext, (flag, acc ++ [p])))
-                  else ret (CNext, (flag, acc ++ [p]))) (mkcw ss r) = WOk (CNext, (flag, acc ++ [p])) (mkcw ss r)).
-      { destruct HT as [->|HT]; [reflexivity|]. destruct (negb (T =? -1)); [|reflexivity].
+      assert (E : (if T =? -1 then ret (CNext, (flag, acc ++ [p]))
+                  else bind (o_now O) (fun t => if T <? t - 0 then ret (CBreak, (true, acc)) else ret (CNext, (flag, acc ++ [p]))))
+                  (mkcw ss r) = WOk (CNext, (flag, acc ++ [p])) (mkcw ss r)).
+      { destruct HT as [->|HT]; [reflexivity|]. destruct (T =? -1); [reflexivity|].
         erewrite bind_ok by reflexivity. replace (T <? 0 - 0) with false by (symmetry; apply Z.ltb_ge; lia). reflexivity. }
       erewrite bind_ok by exact E. cbn [fst snd]. rewrite IH by (simpl in Hf; lia). rewrite <- app_assoc. reflexivity.
   Qed.
@@ -867,9 +865,8 @@ Section SeqLog.
     w_iter fuel (o_next LO it)
       (fun pth (st : bool * list X) =>
          let '(flag, acc) := st in
-         if negb (T =? -1) then
-           bind (o_now LO) (fun t => if T <? t - start then ret (CBreak, (true, acc)) else ret (CNext, (flag, acc ++ [pth])))
-         else ret (CNext, (flag, acc ++ [pth])))
+         if T =? -1 then ret (CNext, (flag, acc ++ [pth]))
+         else bind (o_now LO) (fun t => if T <? t - start then ret (CBreak, (true, acc)) else ret (CNext, (flag, acc ++ [pth]))))
       (false, acc) wl = WOk (flag', r) wl' ->
     exists new, snd wl' = rev new ++ snd wl /\
       ((flag' = false /\ r = acc ++ yielded new /\ exhausted new) \/
@@ -879,20 +876,7 @@ Section SeqLog.
     apply bind_inv in H. destruct H as (x & w1 & Hn & H). cbn [o_next logged] in Hn. apply logging_inv in Hn.
     destruct x as [p|].
     - apply bind_inv in H. destruct H as (cs & w2 & Hb & H).
-      destruct (negb (T =? -1)) eqn:ET.
-      + apply bind_inv in Hb. destruct Hb as (t & w3 & Ht & Hb). cbn [o_now logged] in Ht. apply logging_inv in Ht.
-        destruct (T <? t - start).
-        * inversion Hb; subst. cbn [fst snd] in H. inversion H; subst.
-          exists [EvNext (Some p); EvNow t]. split; [rewrite Ht, Hn; reflexivity|]. right. split; [reflexivity|]. split.
-          -- intros E. rewrite E in ET. discriminate.
-          -- exists p. split; [reflexivity|]. intros [E|[E|[]]]; discriminate.
-        * inversion Hb; subst. cbn [fst snd] in H. apply IH in H. destruct H as (new & Hl & Hc).
-          exists (EvNext (Some p) :: EvNow t :: new). split; [rewrite Hl, Ht, Hn; cbn [rev]; rewrite <- !app_assoc; reflexivity|].
-          change (EvNext (Some p) :: EvNow t :: new) with ([EvNext (Some p); EvNow t] ++ new).
-          destruct Hc as [(-> & -> & Hx)|(-> & HT & q & Hq & Hx)]; [left|right].
-          -- split; [reflexivity|]. split; [rewrite yielded_app, <- app_assoc; reflexivity|]. apply in_or_app. right. exact Hx.
-          -- split; [reflexivity|]. split; [exact HT|]. exists q. split; [rewrite yielded_app, <- Hq, <- app_assoc; reflexivity|].
-             intros Hin. apply in_app_or in Hin. destruct Hin as [[E|[E|[]]]|Hin]; try discriminate. exact (Hx Hin).
+      destruct (T =? -1) eqn:ET.
       + inversion Hb; subst. cbn [fst snd] in H. apply IH in H. destruct H as (new & Hl & Hc).
         exists (EvNext (Some p) :: new). split; [rewrite Hl, Hn; cbn [rev]; rewrite <- !app_assoc; reflexivity|].
         change (EvNext (Some p) :: new) with ([EvNext (Some p)] ++ new).
@@ -900,6 +884,18 @@ Section SeqLog.
         * split; [reflexivity|]. split; [rewrite yielded_app, <- app_assoc; reflexivity|]. apply in_or_app. right. exact Hx.
         * split; [reflexivity|]. split; [exact HT|]. exists q. split; [rewrite yielded_app, <- Hq, <- app_assoc; reflexivity|].
           intros Hin. apply in_app_or in Hin. destruct Hin as [[E|[]]|Hin]; try discriminate. exact (Hx Hin).
+      + apply Z.eqb_neq in ET. apply bind_inv in Hb. destruct Hb as (t & w3 & Ht & Hb). cbn [o_now logged] in Ht. apply logging_inv in Ht.
+        destruct (T <? t - start).
+        * inversion Hb; subst. cbn [fst snd] in H. inversion H; subst.
+          exists [EvNext (Some p); EvNow t]. split; [rewrite Ht, Hn; reflexivity|]. right. split; [reflexivity|]. split; [exact ET|].
+          exists p. split; [reflexivity|]. intros [E|[E|[]]]; discriminate.
+        * inversion Hb; subst. cbn [fst snd] in H. apply IH in H. destruct H as (new & Hl & Hc).
+          exists (EvNext (Some p) :: EvNow t :: new). split; [rewrite Hl, Ht, Hn; cbn [rev]; rewrite <- !app_assoc; reflexivity|].
+          change (EvNext (Some p) :: EvNow t :: new) with ([EvNext (Some p); EvNow t] ++ new).
+          destruct Hc as [(-> & -> & Hx)|(-> & HT & q & Hq & Hx)]; [left|right].
+          -- split; [reflexivity|]. split; [rewrite yielded_app, <- app_assoc; reflexivity|]. apply in_or_app. right. exact Hx.
+          -- split; [reflexivity|]. split; [exact HT|]. exists q. split; [rewrite yielded_app, <- Hq, <- app_assoc; reflexivity|].
+             intros Hin. apply in_app_or in Hin. destruct Hin as [[E|[E|[]]]|Hin]; try discriminate. exact (Hx Hin).
     - inversion H; subst. exists [EvNext None]. split; [rewrite Hn; reflexivity|]. left.
       split; [reflexivity|]. split; [cbn; rewrite app_nil_r; reflexivity|left; reflexivity].
   Qed.
